@@ -212,7 +212,7 @@ ESTIMATE_PARAMETER_FIELD_TYPES = OrderedDict({
 
     "VEL_X_SIG": ParaType(("vel","trend_sigma","x"), "m/y"),
     "VEL_Y_SIG": ParaType(("vel","trend_sigma","y"), "m/y"),
-    "VEL_Y_SIG": ParaType(("vel","trend_sigma","z"), "m/y"),
+    "VEL_Z_SIG": ParaType(("vel","trend_sigma","z"), "m/y"),
     "VEL_E_SIG": ParaType(("vel","trend_sigma","e"), "m/y"),
     "VEL_N_SIG": ParaType(("vel","trend_sigma","n"), "m/y"),
     "VEL_U_SIG": ParaType(("vel","trend_sigma","u"), "m/y"),
